@@ -373,7 +373,8 @@ def shrink(ctx, case, tag):
 
 
 def run(ctx):
-    core.check_props(ctx, "C01.v", THEOREMS)
+    props_pool = ThreadPoolExecutor(max_workers=1)
+    props_future = props_pool.submit(core.check_props, ctx, "C01.v", THEOREMS)   # S2, overlapped with S3's child runs
     fp, _ = core.fingerprint(os.path.join(core.REPO, "src/pymoca/parser.py"),
                              {"parse", "_check_database_structure", "_calculate_txt_hash", "_microseconds_since_epoch"})
     ctx.notes["source_fingerprint"] = {"parser.py:parse+_check_database_structure": fp}
@@ -398,7 +399,7 @@ def run(ctx):
     except OSError:
         pass
     n_corpus = len(cases) - n_probe
-    n_rand = ctx.scaled(300, 3000)
+    n_rand = ctx.scaled(240, 4000)
     max_ops = ctx.scaled(12, 24)
     texts = base_texts
     for i in range(n_rand):
@@ -407,7 +408,14 @@ def run(ctx):
         cases.append(gen_history(rng, texts, rng.randint(3, max_ops)))
     import time as _t
     t_impl = _t.time()
-    results = run_impl(ctx, cases)
+    known_entries = [e for e in core.load_known(ctx.pid) if (e.get("replay") or {}).get("history")]
+    n_main = len(cases)
+    cases_all = cases + [e["replay"]["history"] for e in known_entries]   # S4 replays ride along
+    results_all = run_impl(ctx, cases_all)
+    known_results = {e["tag"]: (c, r) for e, c, r in zip(known_entries, cases_all[n_main:], results_all[n_main:])}
+    results = results_all[:n_main]
+    props_future.result()
+    props_pool.shutdown()
     ctx.notes["timing_s"] = {"implementation_children": round(_t.time() - t_impl, 1)}
     # a case whose child died or hung is re-run once alone in a fresh child: only a reproducible
     # failure is judged (the first outcome and the watchdog traceback are kept in the evidence)
@@ -484,10 +492,16 @@ def run(ctx):
             "  ~ transparent sy gen_caught gen_handles_dberr init_state h.\n"
             "Proof. exact (refuted_dberr sy gen_caught gen_handles_dberr eq_refl). Qed.\n")
     names = list(ties)
-    items = [("Tie_C01_%d" % i, tie_head + ties[name]) for i, name in enumerate(names)]
-    for name, (ok, out, err) in zip(names, core.coq_run_many(ctx, items, workers=4)):
-        closed = "Print Assumptions" not in ties[name] or "Closed under the global context" in out
-        ctx.oblige(name, ok and closed, (err or out)[-800:])
+    together = tie_head + "".join("Module T%d.\n%sEnd T%d.\n" % (i, ties[n_], i) for i, n_ in enumerate(names))
+    ok, out, err = core.coq_run(ctx, "Tie_C01", together)
+    if ok and "Closed under the global context" in out:
+        for name in names:
+            ctx.oblige(name, True)
+    else:  # pinpoint which side condition broke
+        items = [("Tie_C01_%d" % i, tie_head + ties[name]) for i, name in enumerate(names)]
+        for name, (ok, out, err) in zip(names, core.coq_run_many(ctx, items, workers=4)):
+            closed = "Print Assumptions" not in ties[name] or "Closed under the global context" in out
+            ctx.oblige(name, ok and closed, (err or out)[-800:])
 
     # ---- (a) property oracle --------------------------------------------------------------------
     opcount, kinds, nontrivial = {}, {}, set()
@@ -516,7 +530,7 @@ def run(ctx):
         v = judge(c, r)
         known = any(e.get("tag") == tag for e in core.load_known(ctx.pid))
         small = c if known else shrink(ctx, c, tag)
-        rs = core.run_child(ctx, "c01", [small])[0]
+        rs = r if known else core.run_child(ctx, "c01", [small])[0]
         v2 = judge(small, rs) or v
         core.report(ctx, tag, v2[1], {"history": small, "observed": rs.get("obs"), "fresh": rs.get("fresh"),
                                       "failing_histories_this_run": len(idxs),
@@ -546,8 +560,9 @@ def run(ctx):
     ctx.notes["timing_s"]["after_correspondence"] = round(_t.time() - ctx.t0, 1)
     # ---- S4 known findings ------------------------------------------------------------------------
     def still_fails(e):
-        c = e["replay"]["history"]
-        r = core.run_child(ctx, "c01", [c])[0]
+        c, r = known_results.get(e["tag"]) or (e["replay"]["history"], None)
+        if r is None or "obs" not in r:
+            r = core.run_child(ctx, "c01", [c])[0]
         v = judge(c, r)
         return bool(v and v[0] == e["tag"])
     core.replay_known(ctx, still_fails)
@@ -578,6 +593,8 @@ def run(ctx):
 
 def replay(ctx, path):
     rec = json.load(open(path))
+    if isinstance(rec, list):      # a findings/known.d file: replay its first entry
+        rec = rec[0]
     case = rec.get("history") or rec.get("first_mismatching_history") or (rec.get("replay") or {}).get("history")
     res = core.run_child(ctx, "c01", [case])[0]
     v = judge(case, res)
